@@ -80,6 +80,11 @@ def apply_rewrites(reply, rewrites, ctx):
             if _set_bytes(tree, "usm-user", b):
                 label["user"] = b.hex()
         elif field == "engine-id":
+            n = snmp.find(tree, "usm-engine-id")
+            if isinstance(spec, str) and spec.startswith("ext:") and n is not None:
+                spec = (n.content + bytes.fromhex(spec[4:])).hex()  # the genuine engine id plus extra octets
+            elif spec == "cut" and n is not None:
+                spec = n.content[:-1].hex()  # ... or minus its last octet
             b = bytes.fromhex(spec)
             if _set_bytes(tree, "usm-engine-id", b):
                 label["engine_id"] = b.hex()
@@ -155,6 +160,10 @@ def apply_rewrites(reply, rewrites, ctx):
                 for nm in ("error-status", "error-index"):
                     _set_int(tree, nm, 0 if spec != snmp.PDU_GETBULK or nm == "error-status" else 10)
                 label["varbinds"] = [[o, ["null"]] for o, _ in label.get("varbinds", [])]
+        elif field == "ctx-name":
+            # contextName of the scoped PDU: any OCTET STRING is legal, the client does not use it
+            if _set_bytes(tree, "ctx-name", bytes.fromhex(spec)):
+                label["ctx_name"] = spec
         elif field == "max-size":
             # msgMaxSize announced by the sender: any value in 484..2^31-1 is legal (RFC 3412)
             if _set_int(tree, "max-size", spec):
